@@ -163,10 +163,8 @@ ApplyAllowed(i, b) ==
     [] i.op = "unregister" -> Live(i.s) /\ Commit(UnregisterFx(Cur, i.s, i.req, i.id))
     [] i.op = "call" ->
          /\ Live(i.s)
-         /\ IF InProgress(Cur, <<i.s, i.req>>) /\ BestRegs(Cur, i.uri) # {}
-            THEN \E k \in BestRegs(Cur, i.uri) :
-                   /\ b.reg # 0 => regs[k].id = b.reg
-                   /\ Commit(ChunkFx(Cur, i.s, i.req, i.uri, i.o, i.tag, k))
+         /\ IF InProgress(Cur, <<i.s, i.req>>)
+            THEN Commit(ChunkFx(Cur, i.s, i.req, i.o, i.tag))
             ELSE IF ~InProgress(Cur, <<i.s, i.req>>) /\ BestRegs(Cur, i.uri) # {} /\ i.o.prog /\ ~Has(Cur, i.s, "caller:progressive_call_invocations")
             THEN \* using a feature it did not announce: ABORT, the session ends
                  Commit(LeaveFx(Cur, i.s, "violation", ""))
